@@ -13,10 +13,13 @@
     one token whose text and position are faithful; [C08_error_inside]: every compile error position
     lies inside the string (at a token, or at its end); [C08_panics_before_hooks]: Run panics with the
     spec error before any Action or interceptor runs; totality of lexer and parser.
-    NOT proved: that every string made of well-shaped tokens is accepted by the lexer (the converse of
-    [C08_token_shapes]: maximal munch); covered by the independent maximal-munch lexer used as oracle by
-    the check on all strings of length <= 4-5 over 16 class representatives. *)
-From MowCli Require Import Base Lexer Parser Values Flow Cmd LexerProofs ParserProofs GrammarProofs ShapeProofs.
+    [C08_lexer_iff_tiling]: the lexer accepts a string with tokens [ts] iff the string is tiled by [ts]:
+    well-shaped tokens at their reported positions, blanks elsewhere, each token followed by something
+    that cannot continue it (maximal munch; "--" must be followed by a space or the end: Q5);
+    [C08_compiles_iff_wellformed] puts the two halves together for strings. Nothing of the property is
+    left unproved on the model; the check compares the implementation with the model and with an
+    independent maximal-munch lexer and recogniser. *)
+From MowCli Require Import Base Lexer Parser Values Flow Cmd LexerProofs ParserProofs GrammarProofs ShapeProofs MunchProofs.
 
 (** the lexer never runs out of the fuel [tokenize] gives it *)
 Theorem C08_lexer_total : forall s, tokenize s <> LexFuel.
@@ -92,6 +95,24 @@ Proof. exact compile_iff_grammar. Qed.
 Theorem C08_token_shapes : forall s ts, tokenize s = LexOk ts -> forallb shape_b ts = true.
 Proof. exact tokenize_shapes. Qed.
 
+(** the lexical grammar: a string is accepted by the lexer, with the tokens [ts], iff it is tiled by
+    [ts] — well-shaped tokens at their positions, blanks elsewhere — each token followed by something
+    that cannot continue it (maximal munch) *)
+Theorem C08_lexer_iff_tiling : forall s ts, tokenize s = LexOk ts <-> WTiles 0 s ts.
+Proof. exact tokenize_iff_wtiles. Qed.
+
+(** hence, for strings: a spec compiles iff it is such a tiling by tokens that the grammar derives *)
+Theorem C08_compiles_iff_wellformed :
+  forall opts args spec,
+    (exists i, compile opts args spec = IOk i) <->
+    (exists toks e ro', WTiles 0 spec toks /\ GSeq (lookup_name opts) (lookup_name args) false toks e ro').
+Proof.
+  intros opts args spec. rewrite compile_iff_grammar. split; intros (toks & e & ro' & H & G); exists toks, e, ro';
+    (split; [now apply tokenize_iff_wtiles | exact G]).
+Qed.
+
+Print Assumptions C08_lexer_iff_tiling.
+Print Assumptions C08_compiles_iff_wellformed.
 Print Assumptions C08_parser_iff_grammar.
 Print Assumptions C08_compiles_iff_grammar.
 Print Assumptions C08_token_shapes.
